@@ -67,6 +67,11 @@ func c06Judge(c *Case, tr *hx.Trace, w *ref.World) []Verdict {
 			rr := cy.RefAt[e.Rule]
 			if rr.Err == nil && rr.True != e.Cand {
 				foreign = true
+				if !cutShort {
+					// "with its real candidate status": the status told to the listeners is the condition's value on
+					// the facts of that moment, whether or not the rule goes on to fire
+					add("C06:candidate-status-misreported", fmt.Sprintf("cycle %d: listeners were told candidate=%v for %s, whose condition is %v on the facts of that moment", cy.N, e.Cand, e.Rule, rr.True))
+				}
 			}
 			if e.Cand {
 				ncand++
